@@ -54,7 +54,7 @@ def signature(name, t, pre, post):
         "pre_reason": pre["ro"].get("reason", ""), "pre_state": pre["ro"].get("state", ""),
         "post_reason": post["ro"].get("reason", ""), "post_state": post["ro"].get("state", ""),
         "pre_phase": pre["ro"].get("phase", ""), "kind": pre["wl"].get("kind", ""), "style": pre["wl"].get("style", ""),
-        "brEver": post["ghost"].get("brEver"), "jumpBack": post["ghost"].get("jumpBack"),
+        "brEver": post["ghost"].get("brEver"), "jumpBack": post["ghost"].get("jumpBack"), "lateChange": post["ghost"].get("lateChange"),
         "planEdited": bool(pre["used"].get("user.editplan")), "pre_hashOk": pre["ro"].get("hashOk"),
         "workloadObserved": pre["wl"].get("genOk"),
     }
@@ -133,6 +133,9 @@ def check(prop, tier):
             t = run.trans[min(len(run.trans) - 1, 50)]
             samples.append({"cfg": cfgname, "path": run.path_to(t["pre"]), "act": t["act"], "writes": t["writes"]})
     model = closed_model_check(prop, tier)
+    c06 = {}
+    if prop == "C06":
+        c06 = c06_finals(results, violations, known)
     fn_cov = []
     import fnlevel
     for dn in EXTRA_FN.get(prop, []):
@@ -149,11 +152,18 @@ def check(prop, tier):
     for kid, (kf, n) in seen_kf.items():
         log("KNOWN-FINDING: property=%s %s [%s, %d distinct signatures]" % (prop, kf["what"], kid, n))
     rc = 0
+    shown = {}
     for payload in violations:
+        rc = 1
+        shown[payload["predicate"]] = shown.get(payload["predicate"], 0) + 1
+        if shown[payload["predicate"]] > 5:
+            continue  # at most five distinct signatures per predicate are printed; the count is in the evidence
         p = vlib.write_replay(prop, payload)
         log("VIOLATION property=%s replay=%s" % (prop, p))
         log("  predicate %s cfg %s after %s : %s" % (payload["predicate"], payload["cfg"], ",".join(payload["path"][-6:]), json.dumps(payload["signature"])))
-        rc = 1
+    for n, c in shown.items():
+        if c > 5:
+            log("  … %d further distinct signatures of predicate %s not printed" % (c - 5, n))
     exercised = sum(1 for v in counts.values() if v > 0)
     cov = {
         "states": max(1, model.get("states", 0)), "transitions": max(1, model.get("transitions", 0)),
@@ -165,7 +175,7 @@ def check(prop, tier):
                 "non-trivial = the antecedent of one of this property's predicates held on it (counted by TLC, per predicate in predicate_hits)",
         "predicate_hits": counts, "predicates_exercised": exercised, "configs": cfg_cov,
         "drift": drift, "unmodelled": unmodelled, "aliasing": aliasing, "real_panics": panics,
-        "model_check": model, "function_level": fn_cov, "known_findings_reported": [k["id"] for k, _ in known],
+        "model_check": model, "function_level": fn_cov, "final_state_equality": c06, "known_findings_reported": [k["id"] for k, _ in known],
         "exhaustive": all(not c["truncated"] for c in cfg_cov),
     }
     vlib.write_evidence(prop, tier, "model_checking", cov, time.time() - t0, len(violations), ASSUMPTIONS)
@@ -173,6 +183,51 @@ def check(prop, tier):
         log("DRIFT property=%s: %d real transitions not explained by the model, %d not modelled (no property violated)" % (prop, drift, unmodelled))
     log("property %s: %d real transitions validated, %d distinct real states, predicate hits %s" % (prop, total_trans, total_states, json.dumps(counts)))
     return rc
+
+
+def final_view(st):
+    """What 'the same final cluster state' compares: everything but history, budgets and in-memory state."""
+    return json.dumps({"ro": {k: st["ro"][k] for k in ("exists", "phase", "reason", "succeeded", "step", "state")},
+                       "br": st["br"]["exists"], "wl": {k: v for k, v in st["wl"].items() if k not in ("lab", "labelled")},
+                       "net": st["net"], "user": st["user"]}, sort_keys=True)
+
+
+def is_terminal_quiet(st):
+    ro = st["ro"]
+    term = (not ro["exists"]) or ro["phase"] == "Disabled" or (ro["phase"] == "Healthy" and ro["reason"] == "Completed")
+    return term and st["quiet"] and st["user"]["rev"] >= 2 and not st["mem"]["gf"]
+
+
+def c06_finals(results, violations, known):
+    """C06: every terminal quiescent state reached after an injected crash / API fault equals a terminal
+    quiescent state of the undisturbed exploration of the same configuration."""
+    base, faulty = {}, {}
+    for cfgname, prefix, meta, res, wall in results:
+        run = vlib.Run(prefix)
+        run.state(1)
+        fin = {}
+        for sid, st in run._states.items():
+            if is_terminal_quiet(st):
+                fin.setdefault(final_view(st), sid)
+        (faulty if any(t["fault"] for t in run.trans[:2000]) or "f%s" % "all" in prefix or "fcrash" in prefix else base)[cfgname] = (fin, run)
+    out = {}
+    for cfgname, (fin, run) in faulty.items():
+        if cfgname not in base:
+            continue
+        ok = set(base[cfgname][0].keys())
+        extra = [v for v in fin if v not in ok]
+        out[cfgname] = {"finals_undisturbed": len(ok), "finals_after_fault": len(fin), "not_in_undisturbed": len(extra)}
+        for v in extra[:5]:
+            sid = fin[v]
+            path = run.path_to(sid)
+            sig = {"name": "C06final", "cfg": cfgname}
+            payload = {"property": "C06", "predicate": "C06final", "cfg": cfgname, "path": path, "signature": sig, "final": json.loads(v)}
+            kf = vlib.match_known("C06", sig)
+            if kf:
+                known.append((kf, payload))
+            else:
+                violations.append(payload)
+    return out
 
 
 def _mc_one(cfgname):
